@@ -46,8 +46,15 @@ func powSum(maxLen int) int64 { // sum_{l=0..maxLen} 256^l
 	return n
 }
 
-func seedCases(fam int, s *seed) int64 {
+// seedCases is the number of cases seed s contributes to a family. The seeds that are malformed on
+// purpose (a zero-length DIB) are truncated in both tiers but substituted and extended in the
+// thorough tier only: decoding stops at the malformed DIB, so their mutations add little, and as
+// long as the library loops on that DIB every one of them costs a hang detection.
+func seedCases(fam int, s *seed, thorough bool) int64 {
 	l, m := int64(len(s.b)), int64(len(s.st))
+	if !s.valid && !thorough && (fam == famExt || fam == famSub1 || fam == famSub2) {
+		return 0
+	}
 	switch fam {
 	case famCorpus:
 		return 1
@@ -75,7 +82,7 @@ func buildSpaces(c *corpus, thorough bool) []*space {
 		default:
 			s.cum = make([]int64, s1-s0+1)
 			for i := s0; i < s1; i++ {
-				s.cum[i-s0+1] = s.cum[i-s0] + seedCases(fam, &c.seeds[i])
+				s.cum[i-s0+1] = s.cum[i-s0] + seedCases(fam, &c.seeds[i], thorough)
 			}
 			s.size = s.cum[s1-s0]
 		}
@@ -83,20 +90,22 @@ func buildSpaces(c *corpus, thorough bool) []*space {
 	}
 	nf, ns := c.nFrames, len(c.seeds)
 	maxLen := 2
+	which := "every well-formed seed (the seeds with a zero-length DIB are mutated in the thorough tier): "
 	if thorough {
 		maxLen = 3
+		which = "every seed: "
 	}
 	add("a:corpus", famCorpus, 0, ns, 0, fmt.Sprintf("%d frames built octet by octet from DESIGN Appendix C + %d sub-structure seeds cut from them", nf, ns-nf))
 	add(fmt.Sprintf("c:all-bodies-len<=%d-after-16-headers", maxLen), famAfterHeader, 0, 0, maxLen, "15 service ids + 0x0310, total length truthful; knxnet.Unpack")
 	add(fmt.Sprintf("c:all-strings-len<=%d-after-8-cemi-codes", maxLen), famAfterCode, 0, 0, maxLen, "7 message codes + 0xFC; cemi.Unpack")
 	add("b:truncations:frames", famTrunc, 0, nf, 0, "g[:k] for k = 0..len(g)")
-	add("b:truncations:substructures", famTrunc, nf, ns, 0, "")
-	add("b:extensions:frames", famExt, 0, nf, 0, "g + w, w in {00,01,02,08,36,FF}^1..3 (total length field left as is)")
-	add("b:extensions:substructures", famExt, nf, ns, 0, "")
-	add("b:single-substitutions:frames", famSub1, 0, nf, 0, "every position x every value 0..255")
-	add("b:single-substitutions:substructures", famSub1, nf, ns, 0, "")
-	add("b:double-substitutions:frames", famSub2, 0, nf, 0, "ordered pairs (p,q) of structure octets, g[p] in 0..255, g[q] in {00..08,0F,10,36,7F,80,FE,FF}")
-	add("b:double-substitutions:substructures", famSub2, nf, ns, 0, "")
+	add("b:truncations:substructures", famTrunc, nf, ns, 0, "s[:k] for k = 0..len(s), every seed")
+	add("b:extensions:frames", famExt, 0, nf, 0, which+"g + w, w in {00,01,02,08,36,FF}^1..3 (total length field left as is)")
+	add("b:extensions:substructures", famExt, nf, ns, 0, which+"as above")
+	add("b:single-substitutions:frames", famSub1, 0, nf, 0, which+"every position x every value 0..255")
+	add("b:single-substitutions:substructures", famSub1, nf, ns, 0, which+"as above")
+	add("b:double-substitutions:frames", famSub2, 0, nf, 0, which+"ordered pairs (p,q) of structure octets, g[p] in 0..255, g[q] in {00..08,0F,10,36,7F,80,FE,FF}")
+	add("b:double-substitutions:substructures", famSub2, nf, ns, 0, which+"as above")
 	return sp
 }
 
